@@ -25,11 +25,24 @@ Record obs := mkobs {
   o_read : list (list float)          (* data read back from the written file *)
 }.
 
+Definition E_Usage : Z := 16.        (* click's UsageError / BadParameter: exit status 2 (core.ERR_KINDS["UsageError"]) *)
+
+(* an e2e case driven through the `haptools simphenotype` command line *)
+Record clic := mkcli {
+  cl_opts : cli_opts float;            (* the options the user wrote *)
+  cl_two_sources : bool;               (* both --sample and --samples-file were given: the command refuses (UsageError) *)
+  cl_args : option (sim_args float)    (* what simulate_pt received from the command (None: it was not called) *)
+}.
+
 Record rcase := mkr {
   r_gids : list id;
   r_gt : list (list (Z * Z));         (* samples x variants: the two allele values *)
   r_eff : list (id * float);          (* requested effects (ID, beta) in order *)
   r_h2 : option float; r_env : option float; r_norm : bool; r_prev : option float;
+                                      (* what the USER asked for (arguments of run / simulate_pt, or the command's options
+                                         in their documented reading) - not what reached PhenoSimulator.run *)
+  r_reps : option Z;                  (* e2e: the number of replications asked for (None: run is called by the harness) *)
+  r_cli : option clic;                (* e2e through the command line *)
   r_refuse : option (Z * bool);       (* e2e only: the loader must refuse the genotypes with this error kind.  (k, false):
                                          a missing call among the loaded cells - outside the property's quantifier;
                                          (k, true): a repeat copy number that cannot be stored - r_gt holds the TRUE
@@ -131,6 +144,34 @@ Definition liab_sep (rows : list (bool * (Q * Q))) : bool :=
 Definition prev_in_domain (K : float) : bool :=
   ffinite K && Qle_bool 0 (f2q0 K) && negb (Qle_bool 1 (f2q0 K)).
 
+(* the command line as the user reads the documentation: an option that is absent has its documented
+   default (one replication, normalised genotypes; no heritability, no environment variance, quantitative) *)
+Definition mkr_cli gids gt eff (cl : clic) refuse ob : rcase :=
+  let o := cl_opts cl in
+  mkr gids gt eff (co_h2 o) (co_env o) (user_norm o) (co_prev o) (Some (user_reps o)) (Some cl) refuse ob.
+
+(* click refuses: --prevalence outside [0,1) (FloatRange), --sample together with --samples-file *)
+Definition cli_rejects (cl : clic) : bool :=
+  cl_two_sources cl || match co_prev (cl_opts cl) with Some K => negb (prev_in_domain K) | None => false end.
+
+Definition ofsame := opt_eqb fsame.
+Definition args_same (a b : sim_args float) : bool :=
+  (sa_reps a =? sa_reps b) && ofsame (sa_env a) (sa_env b) && ofsame (sa_h2 a) (sa_h2 b) && ofsame (sa_prev a) (sa_prev b)
+  && Bool.eqb (sa_norm a) (sa_norm b) && opt_eqb Z.eqb (sa_seed a) (sa_seed b) && opt_eqb Z.eqb (sa_chunk a) (sa_chunk b).
+
+(* the model's prediction of what the command hands to simulate_pt *)
+Definition cli_agree (c : rcase) : bool :=
+  match r_cli c with
+  | None => true
+  | Some cl =>
+      if cli_rejects cl then match cl_args cl with None => true | Some _ => false end
+      else match cl_args cl with Some a => args_same a (cli_defaults (cl_opts cl)) | None => false end
+  end.
+
+(* R replications yield R columns: one recorded draw (and, by columns_ok, one column) per replication asked for *)
+Definition reps_ok (c : rcase) (o : obs) : bool :=
+  match r_reps c with Some R => Z.of_nat (length (o_reps o)) =? R | None => true end.
+
 (* quantitative: pt = g + eps;  case/control: exactly floor(K n) cases, every case's
    liability >= every control's.  exact = true: float liabilities fl(g + eps) and
    bit-identical sums (the model's prediction); exact = false: the property with
@@ -191,6 +232,7 @@ Definition rng_call_holds (c : rcase) (r : rep) : bool :=
    so far outside [0,1) that argpartition's kth is out of bounds; for e2e the refusal of the
    loader comes first *)
 Definition expected_error (c : rcase) : option Z :=
+  if match r_cli c with Some cl => cli_rejects cl | None => false end then Some E_Usage else
   match r_refuse c with
   | Some (e, _) => Some e
   | None =>
@@ -210,7 +252,8 @@ Definition expected_error (c : rcase) : option Z :=
 
 (* the property's quantifier: pairwise distinct genotype IDs, prevalence in [0,1), every call present *)
 Definition in_domain (c : rcase) : bool :=
-  match run_error (r_gids c) with Some _ => false | None => true end
+  match r_cli c with Some cl => negb (cli_rejects cl) | None => true end
+  && match run_error (r_gids c) with Some _ => false | None => true end
   && match r_prev c with Some K => prev_in_domain K | None => true end
   && match r_refuse c with Some (_, false) => false | _ => true end.
 
@@ -225,11 +268,12 @@ Definition holds_run (c : rcase) : bool :=
   match r_refuse c, r_obs c with
   | Some (k, _), Err e => (e =? k) || (e =? E_Unobserved)   (* a loud refusal of genotypes that cannot be represented *)
   | None, Err e => e =? E_Unobserved
-  | _, Ok o => holds_obs c o                            (* an answer must be the documented one *)
+  | _, Ok o => holds_obs c o && reps_ok c o             (* an answer must be the documented one *)
   end.
 
 (* the model's prediction *)
 Definition agree_run (c : rcase) : bool :=
+  cli_agree c &&
   match expected_error c, r_obs c with
   | Some k, Err e => k =? e
   | None, Ok o =>
@@ -237,17 +281,19 @@ Definition agree_run (c : rcase) : bool :=
        else match o_d o, o_z o with None, None => true | _, _ => false end)
       && z_spec_ok c o && genetic_ok c o
       && forallb (fun r => rng_call_ok c r && noise_ok noise_var c o r && pheno_ok true c o r) (o_reps o)
-      && columns_ok true c o
+      && columns_ok true c o && reps_ok c o
   | _, _ => false
   end.
 
 Definition check_run (c : rcase) : bool * bool := (agree_run c, holds_run c).
 
 (* printed in replay files: found IDs, dosage, k, and (given the observed genetic
-   component) the documented noise variance *)
+   component) the documented noise variance; for a command-line case the arguments the
+   command is modelled to pass *)
 Definition model_run (c : rcase) :=
   (expected_error c, ids_of c, dos_of c,
    match r_prev c with Some K => k_of K (Z.of_nat (nsamp c)) | None => None end,
    match r_obs c with
    | Ok o => Some (Qred (documented_noise (betas_of c) (oq (r_h2 c)) (oq (r_env c)) (gvar o)))
-   | Err _ => None end).
+   | Err _ => None end,
+   option_map (fun cl => cli_defaults (cl_opts cl)) (r_cli c)).
